@@ -7,3 +7,4 @@ import LyModel.Props.C18
 import LyModel.Props.C03
 import LyModel.Props.C15
 import LyModel.Props.C01Lyb
+import LyModel.Props.C16
